@@ -3,6 +3,7 @@ use crate::driver::ClassSpec;
 use crate::sc_agg::AGG;
 use crate::sc_codec::CODEC;
 use crate::sc_compat::COMPAT;
+use crate::sc_conc::CONC;
 use crate::sc_crypt::CRYPT;
 use crate::sc_entropy::ENTROPY;
 use crate::sc_ident::IDENT;
@@ -59,13 +60,13 @@ pub fn spec(id: &str) -> Option<PropSpec> {
     };
     match id {
         "C06" => Some(base(
-            vec![cs(&AGG, "agg-protocol", 350, 6000, false), cs(&AGG, "agg-direct", 250, 5000, false), cs(&AGG, "agg-every-n", 12, 63 * 6 * 3, false), cs(&AGG, "agg-max-n", 6, 48, false)],
+            vec![cs(&AGG, "agg-protocol", 350, 6000, false), cs(&AGG, "agg-direct", 250, 5000, false), cs(&AGG, "agg-every-n", 12, 63 * 6 * 3, false), cs(&AGG, "agg-max-n", 6, 48, false), cs(&CONC, "conc-agg", 100, 1000, false)],
             "cases = (group, scheme, list length, list kind {exact, permuted, reversed, one of 12 relay perturbations}, repeated-message flag, reference decision) over arrival histories under loss/duplication/reordering with and without de-duplication at the aggregator; \
              class `agg-every-n` walks n = 2..=64; non-trivial = every list other than the exact one",
             vec!["cur-blst"],
         )),
         "C07" => Some(base(
-            vec![cs(&AGG, "multi-protocol", 300, 6000, false), cs(&AGG, "multi-direct", 200, 4000, false), cs(&AGG, "multi-every-n", 10, 63 * 6 * 2, false)],
+            vec![cs(&AGG, "multi-protocol", 300, 6000, false), cs(&AGG, "multi-direct", 200, 4000, false), cs(&AGG, "multi-every-n", 10, 63 * 6 * 2, false), cs(&CONC, "conc-multi", 100, 1000, false)],
             "cases = (group, scheme in {Basic, PoP}, number of accumulated contributions, arrivals incomplete?, fault-script length) and, per run, every single-signer omission / re-addition / replacement / stranger addition (all positions for n <= 12, sampled above) and another message; non-trivial = runs with lost or duplicated contributions and every negative case",
             vec!["cur-blst"],
         )),
@@ -79,6 +80,7 @@ pub fn spec(id: &str) -> Option<PropSpec> {
                 cs(&THRESH, "extremes", 104, 208, true),
                 cs(&THRESH, "dealer-shapes", 20, 60, true),
                 cs(&THRESH, "params", 2, 4, false),
+                cs(&CONC, "conc-thresh", 100, 1000, false),
             ],
             "cases = (scenario kind, group, scheme, t, n, subset size and order | fault-script length and schedule digest | share-verification (honest?, Byzantine mode)); \
              non-trivial = a proper subset / a run with at least one fault / a negative expectation; distinct by hash of that tuple. \
@@ -87,38 +89,38 @@ pub fn spec(id: &str) -> Option<PropSpec> {
             vec!["cur-blst"],
         )),
         "C01" => Some(base(
-            vec![cs(&SIGN, "grid", 1368, 1368 * 3, true), cs(&SIGN, "grid-lengths", COMPOSITE_CELLS, COMPOSITE_CELLS * 3, true), cs(&SIGN, "grid-keys", GRID_KEYS, GRID_KEYS * 3, true), cs(&SIGN, "grid-big", 24, 72, true), cs(&SIGN, "retry-restart", 600, 12000, false)],
+            vec![cs(&SIGN, "grid", 1368, 1368 * 3, true), cs(&SIGN, "grid-lengths", COMPOSITE_CELLS, COMPOSITE_CELLS * 3, true), cs(&SIGN, "grid-keys", GRID_KEYS, GRID_KEYS * 3, true), cs(&SIGN, "grid-big", 24, 72, true), cs(&SIGN, "retry-restart", 600, 12000, false), cs(&CONC, "conc-sign", 200, 3000, false)],
             "cases = (group, scheme, key class {1, 2, r-2, r-1, hash-derived, seeded random}, message-length class, key codec on disk, wire codec, fault-script length); \
              class `grid-keys` enumerates 1296 limb-pattern keys (each 64-bit word of the scalar one of 0, 1, 0x80, 2^56, 2^63, 2^64-1) x the 8 key codecs, then the edge-encoding keys (public key k*G whose compressed x-coordinate begins with the modulus' leading 32-bit word or with a zero word; found by a one-off exhaustive walk, re-verified at start-up) x both groups x the 8 key codecs; class `grid-lengths` enumerates (group, scheme) x every composite-boundary length (a power of two, hash-block or XOF-rate multiple minus a 48-/96-byte key prefix or a 1-3 byte length prefix, -1/0/+1: 4000, 4048, 16288, ...); class `grid` enumerates every key class x length class (0,1,31,32,33,127,128,129,255,256,257,4 KiB,16382,16383,16384,64 KiB,40,100 and the hash block / XOF rate boundaries 7,8,15,16,17,23,24,55,56,63,64,65,119,120,167,168,169,336) x scheme x group; \
              non-trivial = a run with at least one transport/crash fault (retries, duplicates, restarts with key reload)",
             vec!["cur-blst"],
         )),
         "C02" => Some(base(
-            vec![cs(&SIGN, "tamper", 2200, 40000, false), cs(&SIGN, "tamper-lengths", COMPOSITE_CELLS, COMPOSITE_CELLS * 6, false), cs(&SIGN, "tamper-big", 24, 144, false), cs(&SIGN, "bitflip-all", 6, 54, false)],
+            vec![cs(&SIGN, "tamper", 2200, 40000, false), cs(&SIGN, "tamper-lengths", COMPOSITE_CELLS, COMPOSITE_CELLS * 6, false), cs(&SIGN, "tamper-big", 24, 144, false), cs(&SIGN, "bitflip-all", 6, 54, false), cs(&CONC, "conc-tamper", 200, 3000, false)],
             "cases = (group, scheme, perturbation kind of the Byzantine relay {sig+kG, -sig, k*sig, signature of another message/key, message bit-flip/truncate/extend/empty/prefix, other key, pk+G, -pk, relabel, valid related tuples, in-flight bit flips}, reference decision); \
              `bitflip-all` flips every single bit of the pk, signature and message encodings of one honest tuple per run; every perturbed tuple is non-trivial",
             vec!["cur-blst", "ref (draft tags)"],
         )),
         "C03" => Some(base(
-            vec![cs(&SIGN, "interop", 1500, 30000, false), cs(&SIGN, "interop-lengths", COMPOSITE_CELLS, COMPOSITE_CELLS * 3, true), cs(&SIGN, "interop-big", 24, 72, true)],
+            vec![cs(&SIGN, "interop", 1500, 30000, false), cs(&SIGN, "interop-lengths", COMPOSITE_CELLS, COMPOSITE_CELLS * 3, true), cs(&SIGN, "interop-big", 24, 72, true), cs(&CONC, "conc-interop", 200, 3000, false)],
             "cases = (group, key class, seed length, message-length class, scheme, aggregate size, repeated-message flag); the reference implementation is a peer: byte equality of KeyGen / SkToPk / CoreSign x3 / PopProve / Aggregate and mutual acceptance; \
              no schedule or fault influences this property (stated in DESIGN.md): non-trivial counts cases with edge keys, seeds shorter than 32 bytes or repeated aggregate messages",
             vec!["cur-blst", "ref (draft tags)"],
         )),
         "C04" => Some(base(
-            vec![cs(&IDENT, "family", 120, 1200, false), cs(&IDENT, "agg-positions", 240, 63 * 6 * 3 * 2, false), cs(&IDENT, "agg-positions-wide", 16, 28, true)],
+            vec![cs(&IDENT, "family", 120, 1200, false), cs(&IDENT, "agg-positions", 240, 63 * 6 * 3 * 2, false), cs(&IDENT, "agg-positions-wide", 16, 28, true), cs(&CONC, "conc-ident", 24, 240, false)],
             "cases = (entry point, which point-/scalar-typed argument is the identity / zero, with which companion values that make the pairing equation hold trivially, scheme, group) — about 90 cases per (scheme, group), enumerated completely in every `family` run (runs differ in message and key); \
              `agg-positions` inserts an identity-key pair into a valid aggregate list at first / middle / last / random positions with its own, a neighbour's or another signer's message for n in 2..=64; `agg-positions-wide` puts it at index 254..257 (thorough: also 65 534..65 536) of a list of equal pairs; all cases non-trivial",
             vec!["cur-blst"],
         )),
         "C05" => Some(base(
-            vec![cs(&SIGN, "relabel", 800, 9000, false), cs(&SIGN, "relabel-lengths", 240, COMPOSITE_CELLS, false), cs(&SIGN, "tags", 1, 1, true)],
+            vec![cs(&SIGN, "relabel", 800, 9000, false), cs(&SIGN, "relabel-lengths", 240, COMPOSITE_CELLS, false), cs(&SIGN, "tags", 1, 1, true), cs(&CONC, "conc-relabel", 100, 1000, false)],
             "cases = (group, ordered pair of distinct schemes, artefact type {Signature, MultiSignature, AggregateSignature, SignatureShare, SignCryptCiphertext, TimeCryptCiphertext, ProofOfKnowledge, ProofCommitment, ProofOfKnowledgeTimestamp}) plus PoP-vs-signature confusions; \
              class `tags` enumerates the ten tag constants the library exposes (pairwise distinct; eight equal to the draft strings); every relabelled case is non-trivial",
             vec!["cur-blst", "ref (draft strings, tag comparison only)"],
         )),
         "C09" => Some(base(
-            vec![cs(&SIGN, "registry", 1000, 15000, false)],
+            vec![cs(&SIGN, "registry", 1000, 15000, false), cs(&CONC, "conc-registry", 100, 1000, false)],
             "cases = (group, key class of registrant, untouched/corrupted in flight, decision) + all ordered pairs of distinct registrants (cross-registration) + perturbed proofs {-pi, pi+G, k*pi, identity, off-subgroup, bit flips}; non-trivial = any case other than an untouched own registration",
             vec!["cur-blst"],
         )),
@@ -132,6 +134,8 @@ pub fn spec(id: &str) -> Option<PropSpec> {
                     cs(&POK, "ts-future", 800, 8000, false),
                     cs(&POK, "ts-tamper", 2800, 32000, false),
                     cs(&POK, "ts-replay", 1200, 16000, false),
+                    cs(&CONC, "conc-pok", 150, 1500, false),
+                    cs(&CONC, "conc-pok-ts", 150, 1500, false),
                 ],
                 "cases = (variant, group, scheme, timeout class, elapsed-time class relative to the timeout at ns granularity {negative, inside, don't-care millisecond, after}, \
                  relay perturbation kind, delivery number); non-trivial = any tampered component, or an elapsed time outside the plain accept region; distinct by hash of the tuple",
@@ -139,34 +143,34 @@ pub fn spec(id: &str) -> Option<PropSpec> {
             )
         }),
         "C11" => Some(base(
-            vec![cs(&CRYPT, "sc-roundtrip", 1200, 24000, false), cs(&CRYPT, "sc-roundtrip-big", BIG_LENS, BIG_LENS * 6, true), cs(&CRYPT, "sc-tamper", 1500, 30000, false), cs(&CRYPT, "sc-bitflip-all", 6, 36, false)],
+            vec![cs(&CRYPT, "sc-roundtrip", 1200, 24000, false), cs(&CRYPT, "sc-roundtrip-big", BIG_LENS, BIG_LENS * 6, true), cs(&CRYPT, "sc-tamper", 1500, 30000, false), cs(&CRYPT, "sc-bitflip-all", 6, 36, false), cs(&CONC, "conc-sc", 150, 1500, false), cs(&CONC, "conc-sc-tamper", 100, 1000, false)],
             "cases = (group, scheme, message length {0..40, 100..140, LEB128 boundaries 127/128, 16383/16384, 64 KiB; class `sc-roundtrip-big`: all 182 lengths whose framed size is within 1 of 2^16..2^25 or of 168*2^j / 136*2^j, j=7..14}, codec at rest, crash/duplicate faults | relay perturbation kind {u, v bit/length/prefix, w, label, splices, in-flight truncation/extension/bit flip} | every single bit of a short ciphertext in `sc-bitflip-all`); \
              non-trivial = any altered ciphertext or a run with crash/duplicate faults",
             vec!["cur-blst"],
         )),
         "C12" => Some(base(
-            vec![cs(&CRYPT, "td-subsets", 60, 60, true), cs(&CRYPT, "td-protocol", 1500, 20000, false), cs(&CRYPT, "td-extremes", 104, 208, true)],
+            vec![cs(&CRYPT, "td-subsets", 60, 60, true), cs(&CRYPT, "td-protocol", 1500, 20000, false), cs(&CRYPT, "td-extremes", 104, 208, true), cs(&CONC, "conc-td", 80, 800, false)],
             "cases = (group, ciphertext scheme, t, n, share subset and order | arrival history under loss/duplication/reordering) and every (share, key share, ciphertext) mismatch; class `td-subsets` enumerates 2<=t<=n<=5 x 3 schemes x 2 groups with every subset; non-trivial = proper subsets, mismatches",
             vec!["cur-blst"],
         )),
         "C13" => Some(base(
-            vec![cs(&CRYPT, "tl-beacon", 1000, 15000, false), cs(&CRYPT, "tl-beacon-big", BIG_LENS, BIG_LENS * 6, true), cs(&CRYPT, "tl-tamper", 2400, 36000, false), cs(&CRYPT, "tl-bitflip-all", 12, 54, false)],
+            vec![cs(&CRYPT, "tl-beacon", 1000, 15000, false), cs(&CRYPT, "tl-beacon-big", BIG_LENS, BIG_LENS * 6, true), cs(&CRYPT, "tl-tamper", 2400, 36000, false), cs(&CRYPT, "tl-bitflip-all", 12, 54, false), cs(&CONC, "conc-tl", 100, 1000, false)],
             "cases = (group, scheme, beacon kind {whole key, t-of-n recombined over a lossy/duplicating transport}, message length (class `tl-beacon-big`: all 182 lengths whose framed size is within 1 of 2^16..2^25 or of 168*2^j / 136*2^j, j=7..14), identifier kind, fault-script length | perturbation kind distinguishing header, authenticated prefix of w and padding, incl. in-place rewrites of the length prefix to values around 2^7..2^128 | every single bit in `tl-bitflip-all`); non-trivial = recombined beacons, runs with faults, all altered ciphertexts",
             vec!["cur-blst"],
         )),
         "C14" => Some(base(
-            vec![cs(&CRYPT, "eg-tally", 1500, 20000, false), cs(&CRYPT, "eg-extremes", 104, 208, true), cs(&CRYPT, "eg-proof-tamper", 2400, 32000, false), cs(&CRYPT, "eg-transcripts", 16, 64, true)],
+            vec![cs(&CRYPT, "eg-tally", 1500, 20000, false), cs(&CRYPT, "eg-extremes", 104, 208, true), cs(&CRYPT, "eg-proof-tamper", 2400, 32000, false), cs(&CRYPT, "eg-transcripts", 16, 64, true), cs(&CONC, "conc-eg", 100, 1000, false)],
             "cases = (group, number of voters, which ballots arrived in which order under loss/duplication/delay, fault-script length) with conservation oracle, threshold share subset; proof perturbation kind over (c1, c2, message_proof, blinder_proof, challenge, pk); non-trivial = sums of >1 ciphertext, runs with faults, all altered proofs",
             vec!["cur-blst"],
         )),
         "C15" => Some(base(
-            vec![cs(&CODEC, "vault", 96, 900, false), cs(&CODEC, "vault-big", 4, 12, false)],
+            vec![cs(&CODEC, "vault", 96, 900, false), cs(&CODEC, "vault-big", 4, 12, false), cs(&CONC, "conc-vault", 12, 120, false)],
             "cases = (group, data type (all 28), codec {bytes via &[u8] / Vec<u8> / &Vec<u8> / Box<[u8]>, serde_bare, serde_json, big- and little-endian for scalar types and the curve-tagged key wrapper}, specimen kind {generated, identity point, scalar 1 / r-1, each scheme variant, timestamps 0 / 2^63 / u64::MAX, share identifiers incl. 1 and 255, payload 0 B .. 64 KiB, limb-pattern secret keys, points k*G whose compressed coordinate begins with the modulus' leading 32-bit word or a zero word (15 scalars found by an exhaustive walk, in every point-carrying type)}); \
              every specimen is written to a vault's disk, survives a crash/restart, is reloaded, compared (bytes and PartialEq) and forwarded to a second vault in another codec; the type x group x scheme x codec table is enumerated in every run, values within a cell are seeded; non-trivial = edge specimens",
             vec!["cur-blst"],
         )),
         "C16" => Some(base(
-            vec![cs(&CODEC, "byz-encoder", 32, 300, false), cs(&CODEC, "random-bytes", 300, 6000, false)],
+            vec![cs(&CODEC, "byz-encoder", 32, 300, false), cs(&CODEC, "random-bytes", 300, 6000, false), cs(&CONC, "conc-byz-encoder", 6, 60, false)],
             "cases = (group, data type, codec {bytes, bare, json}, point position, malformation {on-curve point outside the subgroup, x with no curve point, compression flag cleared, infinity flag with coordinates, infinity with sign, x >= p}) + every strict prefix of every encoding (torn/short write) + other lengths for exact-length types + zero / r / 2r for byte-imported scalars + invalid payloads in share containers at every use site + corrupted/random byte strings whose accepted outputs are re-checked point by point; all cases non-trivial",
             vec!["cur-blst", "ref (point classification only)"],
         )),
@@ -207,6 +211,10 @@ pub fn spec(id: &str) -> Option<PropSpec> {
                     cs(&CRYPT, "eg-extremes", 8, 78, false),
                     cs(&CRYPT, "td-extremes", 8, 78, false),
                     cs(&SIGN, "grid-keys", 400, 4000, false),
+                    cs(&CONC, "conc-hostile", 6, 60, false),
+                    cs(&CONC, "conc-tamper", 20, 200, false),
+                    cs(&CONC, "conc-sc-tamper", 20, 200, false),
+                    cs(&CONC, "conc-pok-ts", 20, 200, false),
                 ],
                 "every library call made by any party in any scenario is monitored (unwinding = violation, recorded with file:line; a worker without progress for 120 s = loop). Cases = hostile-input runs: every truncation length, bit flips, extensions and hex-digit corruption of valid encodings of all 28 types in all codecs followed by every accessor of whatever decoded; valid signcryption / time-lock envelopes around attacker-chosen framing bytes; 14 timestamp x 9 timeout x 5 clock-skew classes; all 256 byte-OR values of the zero test; plus the tamper/Byzantine classes of the other scenarios. Everything runs in the release profile and again in a profile with debug assertions and overflow checks. All cases non-trivial.",
                 vec!["cur-blst (release)", "cur-blst (checked: debug-assertions + overflow-checks)"],
@@ -280,7 +288,7 @@ pub fn spec(id: &str) -> Option<PropSpec> {
             needs_entropy: true,
             needs_clock: true,
             ..base(
-                vec![cs(&ENTROPY, "history", 360, 360, false), cs(&ENTROPY, "marathon", 10, 10, false), cs(&ENTROPY, "fork", 144, 144, true), cs(&ENTROPY, "processes", 24, 48, false)],
+                vec![cs(&ENTROPY, "history", 360, 360, false), cs(&ENTROPY, "marathon", 10, 10, false), cs(&ENTROPY, "fork", 144, 144, true), cs(&ENTROPY, "processes", 24, 48, false), cs(&CONC, "conc-fresh", 72, 288, false)],
                 "cases = (randomized entry point, group, mode in {one call sequence (8N calls), 8 caller threads, 4 process incarnations, two device seeds, all entry points interleaved and compared with each other, two child processes seam on/off, `fork`: a process that has made 0..5 randomized calls forks twice and parent and both workers call again (12 entry points x 2 groups x 6 warm-up counts), `marathon`: 2^18+4 (quick) / 2^22+4 (thorough) calls of one cheap entry point on one thread}); every run is also compared with the earlier runs on its worker thread; \
                  N identical-argument calls per case (quick 256, thorough 4096) at a frozen simulated clock; every exposed ephemeral (u, masks, c1, recomputed r1, commitment, secret, key, challenge, share values) must be pairwise distinct; all cases are non-trivial",
                 vec!["cur-blst"],
